@@ -285,7 +285,7 @@ def run(ctx):
     def g1k(k): return E.g1_encode(E.G1C.mul(E.G1C.g, k % R))
     def g2k(k): return E.g2_encode(E.g2_mul(E.G2_GEN, k % R))
     pair_cases = []
-    for _ in range(ctx.scale(6, 40)):
+    for _ in range(ctx.scale(12, 60)):
         a, b, c = r.randrange(1, R), r.randrange(1, R), r.randrange(1, 50)
         good = [(a, b), (-a * b * pow(c, -1, R), c)]
         kind = r.choice(["good", "good", "bad", "three", "swapped", "withinf"])
@@ -529,6 +529,35 @@ def run(ctx):
         if got != want:
             ctx.violation("%s: implementation says %s, the reference ECDSA says %s" % (name, got, want),
                           {"case": line, "family": "crypto", "impl": o, "expected": want})
+
+    # ---- the Gallina ECDSA specification (Model/Ecdsa.v, extracted; ~5-10 s per verification, so few cases)
+    #      against the implementation's library calls and the Python reference
+    el = []
+    for name, S, a, b, c in secp_cases:
+        if len(b) != 32:
+            continue
+        v = S.verify(a, b, c)
+        if v == "other":
+            continue
+        el.append(("ecdsa %s %s %s %s" % ("k1" if S is E.SECP_K1 else "r1", _hx(a), _hx(b), _hx(c)), v))
+    slow = [x for x in el if x[1] in (True, False)]
+    fast = [x for x in el if x[1] not in (True, False)]
+    pick = r.sample(slow, min(len(slow), ctx.scale(6, 32))) + r.sample(fast, min(len(fast), ctx.scale(10, 60)))
+    lines = [x[0] for x in pick]
+    margv = ["sh", "-c", "ulimit -s unlimited 2>/dev/null || ulimit -s 1000000; exec %s crypto" % os.path.join(vlib.BUILD, "ocaml", "model")]
+    mo = vlib._run_sharded(margv, lines, 1500, shards=max(1, min(vlib.NPROC, len(lines))))
+    io = vlib.run_impl("crypto", lines)
+    for (line, v), m_, i_ in zip(pick, mo, io):
+        ctx.evaluations += 1
+        ctx.histogram("gallina_ecdsa", str(v))
+        want = "= 1 1 1" if v is True else ("= 1 1 0" if v is False else ("= 0 %s 0" % (m_ or "= 0 0 0").split()[2] if v == "badpk" else "= 1 0 0"))
+        if m_ != want:
+            ctx.broken.append(("correspondence", "gallina-ecdsa-vs-reference", "%s\n  model: %s\n  reference: %s" % (line, m_, v)))
+        if m_ != i_:
+            ctx.violation("ECDSA: the libraries disagree with the Gallina specification (Model/Ecdsa.v)",
+                          {"case": line, "family": "crypto", "impl": i_, "model": m_, "reference": str(v)})
+        if line not in ctx.distinct:
+            ctx.distinct.add(line); ctx.nontrivial += 1
 
     # ---- algebraic relations on the implementation alone (large random scalars)
     rel = []
